@@ -101,14 +101,15 @@ def _count_near_routes(L, s, t, n):
 
 def check_floyd(case, ctx):
     kind = case["kind"]
-    W = np.array(case["W"], dtype=float)
+    W = gen.layout(np.array(case["W"], dtype=float), case.get("order"))
     n = len(W)
     fails = []
     ctx.label("floyd:" + kind)
+    ctx.label("layout:" + str(case.get("order", "C")))
     transform = {"log": "log", "inv": "inv"}.get(kind)
     Lf, combine, better, unit, tofloat = _exact_model(case)
     De = og.exact_sp(Lf, combine=combine, better=better, unit=unit)
-    o = ctx.call(bct.distance_wei_floyd, W.copy(), transform=transform)
+    o = ctx.call(bct.distance_wei_floyd, gen.layout(W.copy(), case.get("order")), transform=transform)
     if o.status == "timeout":
         return fails
     if not o.ok:
@@ -196,7 +197,7 @@ def _greedy_terminates(L, D, n):
 
 
 def check_nav(case, ctx):
-    L = np.array(case["L"], dtype=float)
+    L = gen.layout(np.array(case["L"], dtype=float), case.get("order"))
     D = np.array(case["D"], dtype=float)
     n = len(L)
     mh = case["max_hops"]
@@ -282,9 +283,10 @@ def floyd_cases(draw, nmax):
             W[i, j] = TENTHS[k]
             if not directed:
                 W[j, i] = TENTHS[k]
+        order = draw(st.sampled_from(gen.ORDERS))
         if kind == "dec":
-            return {"kind": "len", "W": W, "decimal": True}
-        return {"kind": "inv", "W": W, "decimal": True}
+            return {"kind": "len", "W": W, "decimal": True, "order": order}
+        return {"kind": "inv", "W": W, "decimal": True, "order": order}
     c = draw(c03.cases(nmax, [kind]))
     return c
 
@@ -306,7 +308,7 @@ def nav_cases(draw):
             D[i, j] = D[j, i] = float(v)
     mh = draw(st.sampled_from([None, None, 1, 2, "n", "2n"]))
     mh = n if mh == "n" else 2 * n if mh == "2n" else mh
-    return {"nav": True, "L": L, "D": D, "max_hops": mh}
+    return {"nav": True, "L": L, "D": D, "max_hops": mh, "order": draw(st.sampled_from(gen.ORDERS))}
 
 
 _SP = {}
@@ -323,7 +325,7 @@ def _space(tier):
 
 def _exh(tier, lo, hi):
     for n, d, A, k in _space(tier).range(lo, hi):
-        yield {"kind": "bin", "W": A.astype(float)}
+        yield {"kind": "bin", "W": A.astype(float), "order": gen.ORDERS[k % len(gen.ORDERS)]}
 
 
 def units(tier):
